@@ -1753,6 +1753,21 @@ fn case_c13(seed: u64, idx: usize, cache: &TableCache, out: &mut String, st: &mu
     }
     let other = cfggen::gen_program(&mut r, &pc);
     let mut cfgs: Vec<Vec<ModeSpec>> = vec![base.clone(), other];
+    if via_serde {
+        // the twin with sorted tables (differs from the base only in the order of the transitions)
+        let mut twin = base.clone();
+        for m in twin.iter_mut() {
+            m.transitions.sort();
+        }
+        cfgs.push(twin);
+    }
+    if base.len() >= 2 && r8.chance(30) {
+        // the same modes in another order
+        let mut perm = base.clone();
+        perm.reverse();
+        cfgs.push(perm);
+        st.count("configurations_with_permuted_mode_lists", 1);
+    }
     for _ in 0..4 {
         let src = if r.chance(70) { base.clone() } else { cfgs[r.below(cfgs.len())].clone() };
         cfgs.push(mutate_cfg(&mut r, &src));
@@ -1934,12 +1949,19 @@ fn c14_round(seed: u64, round: usize, cache: &TableCache, out: &mut String, st: 
     let mut bad = a.clone();
     bad[0].patterns[0].pattern = "(".to_string();
     let mut cfgs: Vec<Vec<ModeSpec>> = vec![a.clone(), slow, bad];
+    // (index 3 + n_threads: the modes of configuration 0 in reverse order)
     for t in 0..n_threads {
         cfgs.push(vec![ModeSpec {
             name: format!("P{}_{}_{}", seed, round, t),
             patterns: vec![PatSpec { pattern: format!("p{}|[a-c]", t), tid: t, lookahead: None }],
             transitions: vec![],
         }]);
+    }
+    let perm_idx = cfgs.len();
+    {
+        let mut perm = a.clone();
+        perm.reverse();
+        cfgs.push(perm);
     }
     let mut comps = CompIds::default();
     let mut prologue = String::new();
@@ -1988,7 +2010,7 @@ fn c14_round(seed: u64, round: usize, cache: &TableCache, out: &mut String, st: 
                     0..=5 => WOp::Next { k: tr.below(4) },
                     6 => WOp::Peek { k: tr.below(4), n: tr.below(3) },
                     7 => WOp::FindIter { s: *tr.pick(&[0, 1, 3, 99]), k: tr.below(4), input: tr.below(4) },
-                    8 => WOp::Build { s: 1, cfg: *tr.pick(&[0, 1, 2]) },
+                    8 => WOp::Build { s: 1, cfg: *tr.pick(&[0, 1, 2, perm_idx, perm_idx]) },
                     _ => match tr.below(4) {
                         0 => WOp::SSetMode { s: *tr.pick(&[0, 1, 3]), m: tr.below(2) },
                         1 | 2 => WOp::SCurMode { s: *tr.pick(&[0, 1, 3]) },
@@ -2118,7 +2140,9 @@ fn c14_hammer(seed: u64, round: usize, out: &mut String, st: &mut Stats) -> bool
     let inputs: Vec<String> = (0..4)
         .map(|_| (0..60).map(|_| *r.pick(&["abc", "cab", "012", "9", " ", "x1a", "zb", "if ", "ifa", "aa", "77", "\n", "αβγ", "жзи", "ωα", "яа", "é"])).collect::<String>())
         .collect();
-    let expected: Vec<String> = inputs.iter().map(|i| tokens_of(&shared, i)).collect();
+    // (expected streams from a separate instance: the shared scanner is untouched until the threads start)
+    let reference = ScannerBuilder::new().add_scanner_modes(&modes).build_uncached().unwrap();
+    let expected: Vec<String> = inputs.iter().map(|i| tokens_of(&reference, i)).collect();
     let n_threads = 8;
     let progress = Arc::new(AtomicUsize::new(0));
     let (tx, rx) = std::sync::mpsc::channel::<(usize, Option<String>)>();
@@ -2162,6 +2186,46 @@ fn c14_hammer(seed: u64, round: usize, out: &mut String, st: &mut Stats) -> bool
         out.push_str("oracle ok\nexpect oracle\n");
     }
     st.count("concurrent_scans_of_one_scanner", n_threads * 300);
+    // --- cold starts: a fresh scanner per repetition, all threads make their first scan at once
+    {
+        let cold_input = "λάμδα жзик αβγ ωα яа éü 12 abc λάμδα";
+        let cold_expected = tokens_of(&reference, cold_input);
+        let mut cold_bad: Option<String> = None;
+        let reps = 150;
+        for rep in 0..reps {
+            let fresh = Arc::new(ScannerBuilder::new().add_scanner_modes(&modes).build_uncached().unwrap());
+            let barrier = Arc::new(std::sync::Barrier::new(4));
+            let mut hs = Vec::new();
+            for _ in 0..4 {
+                let (fresh, barrier) = (fresh.clone(), barrier.clone());
+                hs.push(std::thread::spawn(move || {
+                    barrier.wait();
+                    tokens_of(&fresh, cold_input)
+                }));
+            }
+            for h in hs {
+                match h.join() {
+                    Ok(got) => {
+                        if got != cold_expected && cold_bad.is_none() {
+                            cold_bad = Some(format!("first concurrent scans of a fresh scanner (repetition {}) on {:?}: [{}] but sequentially [{}]", rep, cold_input, got, cold_expected));
+                        }
+                    }
+                    Err(_) => {
+                        if cold_bad.is_none() {
+                            cold_bad = Some("a thread scanning a fresh shared scanner panicked".to_string());
+                        }
+                    }
+                }
+            }
+        }
+        match cold_bad {
+            None => out.push_str("oracle ok\nexpect oracle\n"),
+            Some(b) => {
+                let _ = writeln!(out, "oracle FAIL {}\nexpect oracle", b);
+            }
+        }
+        st.count("cold_start_concurrent_scans", reps * 4);
+    }
     // --- builds: cache hits through add_patterns, misses, failing builds
     let simple: Vec<String> = vec![format!("h{}_{}", seed % 1000, round), "[a-c]+".to_string(), "\\s+".to_string()];
     let probe = format!("h{}_{} ab ", seed % 1000, round);
@@ -2273,7 +2337,12 @@ fn case_c15(seed: u64, idx: usize, out: &mut String, st: &mut Stats) {
                 spec[m].patterns[0].lookahead = Some((r3.chance(50), "a".to_string()));
             }
             let bad = if let Some(text) = &special { text.clone() } else { buildgen::planted(&mut r3) };
-            spec[m].patterns[k].lookahead = Some((r3.chance(50), bad));
+            if r3.chance(50) {
+                spec[m].patterns[k].lookahead = Some((r3.chance(50), bad));
+            } else {
+                spec[m].patterns[k].lookahead = Some((r3.chance(50), "b".to_string()));
+                spec[m].patterns[0].lookahead = Some((r3.chance(50), bad));
+            }
             st.count("shared_token_type_with_two_lookaheads", 1);
         }
     }
@@ -2404,7 +2473,27 @@ fn case_c16(seed: u64, idx: usize, cache: &TableCache, out: &mut String, st: &mu
         st.count("patterns_with_look_around_characters_in_a_class", 1);
     }
     st.cases += 1;
-    let modes = cfggen::to_modes(&spec);
+    let unsorted = r2.chance(20);
+    if unsorted {
+        for m in spec.iter_mut() {
+            if m.transitions.len() >= 2 {
+                m.transitions.reverse();
+            }
+            if !m.transitions.is_empty() && r2.chance(40) {
+                let t = m.transitions[0];
+                m.transitions.push((t.0, (t.1 + 1) % 3));
+            }
+        }
+        st.count("transition_tables_unsorted_or_with_repeated_token_types", 1);
+    }
+    let modes = if unsorted {
+        match cfggen::to_modes_json(&spec) {
+            Some(m) => m,
+            None => return,
+        }
+    } else {
+        cfggen::to_modes(&spec)
+    };
     let _ = writeln!(out, "case {}\nexpect case {}\n# {}", idx, idx, describe(&spec).replace('\n', "\\n"));
     // Serialize
     let mut cfg = String::new();
